@@ -667,4 +667,34 @@ theorem reachable_step {s s' : Sys} {e : Event} (h : Reachable s) (hs : step? s 
       | some s1 => simp only [h1] at h0 ⊢; exact ih s1 h0
   exact this _ _ hr
 
+/-- what the `push` event does to the store and to the log of appended blocks -/
+theorem push_effect {s s' : Sys} {i : Nat} (hs : step? s (.push i) = some s') :
+    ∃ r, s.parked[i]? = some r ∧ r.block.num ≤ s.store.queued.next ∧
+      s'.store = (s.store.tryPush CACHE_CAPACITY r.block).1 ∧
+      s'.accepted = (if (s.store.tryPush CACHE_CAPACITY r.block).2 then s.accepted ++ [r.block] else s.accepted) ∧
+      s'.handed = s.handed := by
+  simp only [step?] at hs
+  split at hs
+  · exact absurd hs (by simp)
+  · rename_i r hr
+    split at hs
+    · exact absurd hs (by simp)
+    · rename_i hle
+      injection hs with hs; subst hs
+      exact ⟨r, hr, by omega, by rw [afterQueue_store], by rw [afterQueue_accepted], by rw [afterQueue_handed]⟩
+
+
+theorem pairwise_lt_inj {l : List Block} (h : l.Pairwise (fun a b => a.num < b.num)) {a b : Block}
+    (ha : a ∈ l) (hb : b ∈ l) (hn : a.num = b.num) : a = b := by
+  induction l with
+  | nil => simp at ha
+  | cons x xs ih =>
+    rw [List.pairwise_cons] at h
+    rcases List.mem_cons.mp ha with rfl | ha' <;> rcases List.mem_cons.mp hb with rfl | hb'
+    · rfl
+    · have := h.1 b hb'; omega
+    · have := h.1 a ha'; omega
+    · exact ih h.2 ha' hb'
+
+
 end EraVerif.Proofs.Store
